@@ -329,7 +329,12 @@ func genFTy(r *vh.Rand, scope string, env EnumEnv) (FTy, string) {
 		}
 		return t, class
 	case 7:
-		return FTy{Kind: TFloat, F64: r.Bool(), List: genLPay(r, true, false)}, ""
+		t := FTy{Kind: TFloat, F64: r.Bool(), List: genLPay(r, true, false)}
+		if r.Chance(10) {
+			t.FloatR = true
+			return t, "compile-error" // "TODO: float rules not implemented"
+		}
+		return t, ""
 	case 8:
 		t := FTy{Kind: TDate, List: genLPay(r, false, false)}
 		if r.Chance(50) {
@@ -343,9 +348,30 @@ func genFTy(r *vh.Rand, scope string, env EnumEnv) (FTy, string) {
 		}
 		return t, ""
 	case 10:
-		return FTy{Kind: TTimestamp, List: genLPay(r, true, false)}, ""
+		t := FTy{Kind: TTimestamp, List: genLPay(r, true, false)}
+		if r.Chance(40) {
+			ts := &TSRules{XMin: optBool(r), XMax: optBool(r)}
+			// j5s text cannot set a timestamp attribute ("unsupported scalar type"): bounds through the AST only
+			if genAST && r.Chance(60) {
+				ts.Min = ptr(int64(r.Range(0, 2000000000)))
+			}
+			if genAST && r.Chance(60) {
+				ts.Max = ptr(int64(r.Range(0, 2000000000)))
+			}
+			if ts.Min != nil || ts.Max != nil || ts.XMin != nil || ts.XMax != nil || genAST {
+				t.TS = ts
+			}
+		}
+		return t, ""
 	case 11:
-		return FTy{Kind: TObject, Flatten: r.Chance(40)}, ""
+		t := FTy{Kind: TObject, Flatten: r.Chance(40)}
+		if r.Chance(35) {
+			or := &ObjRules{Min: smallLen(r), Max: smallLen(r)}
+			if or.Min != nil || or.Max != nil || genAST {
+				t.ObjR = or
+			}
+		}
+		return t, ""
 	case 12:
 		if r.Bool() {
 			t := FTy{Kind: TAny, List: genLPay(r, false, false)}
@@ -357,7 +383,7 @@ func genFTy(r *vh.Rand, scope string, env EnumEnv) (FTy, string) {
 			}
 			return t, ""
 		}
-		return FTy{Kind: TOneof, List: genLPay(r, false, false)}, ""
+		return FTy{Kind: TOneof, OneofR: genAST && r.Chance(30), List: genLPay(r, false, false)}, ""
 	}
 	panic("unreachable")
 }
